@@ -5,7 +5,7 @@ from __future__ import annotations
 import ast
 
 from .common import *  # noqa: F401,F403
-from .common import SVC, MOD, AnalysisError, Ctx, Facts, Registry, U, Unit, call_name, own_nodes, own_nodes_with_lambdas, parent, q, where
+from .common import SVC, MOD, AnalysisError, Ctx, Facts, Registry, U, Unit, call_name, eq_atom, own_nodes, own_nodes_with_lambdas, parent, q, where
 from .c03 import MARK
 
 ob = Registry()
@@ -67,14 +67,14 @@ def c08_1(c: Ctx) -> None:
     c.floor(len(ups), 1, 'result.update(...) in event_cancel_pending_child_processing')
     for call in ups:
         r = U(call.func.value)
-        atom = f"{r}.status == 'pending'"
+        atom = eq_atom(f'{r}.status', "'pending'")
         facts = Facts(lambda a: a == atom, cg=c.cg, unit=cu)
         for n in g.nodes_of(q.stmt_of(call)):
-            p = q.guard_search(g, n, atom, facts)
+            p = q.guard_search(g, n, f"{r}.status == 'pending'", facts)
             if p is None:
-                c.ok(where(cu, call), f'{r}.update(error=…) only under {atom}')
+                c.ok(where(cu, call), f"{r}.update(error=…) only under {r}.status == 'pending'")
             else:
-                c.fail(cu, f'{r}.update(...) not guarded by {atom}', 'cancelling child processing overwrites results that already started or finished: completed children change', node=call, witness=c.path(g.entry, p))
+                c.fail(cu, f"{r}.update(...) not guarded by {r}.status == 'pending'", 'cancelling child processing overwrites results that already started or finished: completed children change', node=call, witness=c.path(g.entry, p))
 
 
 @ob('C08.2', 'WMW/TYPESTATE', 'EventResult.status/result/error/completed_at/started_at are assigned only inside EventResult.update (completed_at once); per activation of '
